@@ -85,7 +85,14 @@ impl Policy for HPolicy {
                 },
             };
             LAST_ROLLED = roll;
-            if roll {
+            if roll && k == LEAVE_AT {
+                // a rotation that failed after LogFile::roll(): the writer is closed, the file is still
+                // at the path with its acknowledged records (for the appender the state is the same
+                // whether or not the policy reports the failure; reporting it would construct an
+                // anyhow error, which does not fit the solver - DESIGN.md 9.1 rule 17)
+                log.roll();
+                LAST_ROLLED = false;
+            } else if roll {
                 log.roll();
                 // abstract roller: the file is no longer at the path afterwards
                 let from = fs::path(ACTIVE);
@@ -139,6 +146,20 @@ pub fn body_prefixed(pre_process: bool, lens: &'static [usize], pre: usize, pref
     }
 }
 static mut PREFIX: Option<&'static [bool]> = None;
+/// consultation index at which a decided roll closes the writer but leaves the file in place
+static mut LEAVE_AT: usize = usize::MAX;
+
+/// C08 at the appender level: the roll decided at consultation `leave_at` fails after
+/// `LogFile::roll()` (file left in place); the following appends must keep every acknowledged record.
+pub fn body_failed_roll(lens: &'static [usize], pre: usize, prefix: &'static [bool], leave_at: usize, witness: bool) {
+    unsafe {
+        LEAVE_AT = leave_at;
+    }
+    body_prefixed(false, lens, pre, prefix, witness);
+    unsafe {
+        LEAVE_AT = usize::MAX;
+    }
+}
 
 pub fn body_gen(mode: Mode, pre_process: bool, nsteps: usize, restart: bool, witness: bool, lens: Option<&'static [usize]>, pre_fixed: Option<usize>) {
     fs::reset();
@@ -368,6 +389,13 @@ harnesses! {
     fn pfx_post_2x2x2_roll_roll() { body_prefixed(false, &[2, 2, 2], 0, &[true, true], false) }
     #[kani::unwind(10)]
     fn pfx_post_3x0_roll() { body_prefixed(false, &[3, 0], 2, &[true], false) }
+    // C08: a failed roll (file left in place) at the first consultation, then one or two more appends
+    #[kani::unwind(10)]
+    fn failed_roll_2x1() { body_failed_roll(&[2, 1], 1, &[true], 0, false) }
+    #[kani::unwind(10)]
+    fn failed_roll_2x1_witness() { body_failed_roll(&[2, 1], 1, &[true], 0, true) }
+    #[kani::unwind(10)]
+    fn failed_roll_1x2x1() { body_failed_roll(&[1, 2, 1], 0, &[true, false], 0, false) }
     #[kani::unwind(10)]
     fn pfx_pre_2x1_keep() { body_prefixed(true, &[2, 1], 1, &[false], false) }
     #[kani::unwind(10)]
